@@ -263,7 +263,7 @@ def s4_csv_liveness(F, r):
 
 DROPPING_TYPES = ("adapters::filter::", "adapters::filter_map::", "adapters::skip::", "adapters::take::", "adapters::skip_while::", "adapters::take_while::",
                   "adapters::step_by::", "adapters::map_while::")
-CONSUMERS = ("try_for_each", "try_fold", "for_each", "fold", "map", "flat_map", "collect")
+CONSUMERS = ("try_for_each", "try_fold", "for_each", "fold", "map", "flat_map", "collect", "next")   # `next`: the walk written as a `for` loop
 
 
 def i1_reader_visits_everything(F, r):
